@@ -514,6 +514,15 @@ impl JobServer {
             state.destroy_tokens(cheats);
             write_tokens(self.params.cheat_fds.1, state.cheats as usize)
                 .map_err(RedoError::opaque_error)?;
+        } else if self.params.top_level == 0 && state.my_tokens == 0 {
+            // We are about to exit under an inherited jobserver without
+            // holding any token (for example, the reap of our last child
+            // consumed a cheat byte, or an error interrupted a lock wait
+            // after we gave our token up). Whoever reaps us will re-create a
+            // token on our behalf, so record the debt the same way as for a
+            // cheated token: the next reaper that finds the byte will not
+            // re-create its child's token.
+            write_tokens(self.params.cheat_fds.1, 1).map_err(RedoError::opaque_error)?;
         }
         Ok(())
     }
